@@ -50,7 +50,7 @@ def _edit_histories(ctx, rng):
     from y0.algorithm.identify import identify_outcomes
     from y0.dsl import Variable
 
-    for _ in range(ctx.share({"quick": 60, "thorough": 1500}[ctx.tier])):
+    for _ in range(ctx.share({"quick": 160, "thorough": 1500}[ctx.tier])):
         gd = gg.random_admg(rng, rng.randint(3, 5))
         g = gg.to_nx(gd)
         for _s in range(8):
@@ -90,7 +90,7 @@ def run_shard(ctx, K=None):
     mon_id.install(semantic=True, K=K, max_card=3)
     mon_id.CONFIG["max_nodes_semantic"] = 6
     rng = ctx.rng
-    n_cases = ctx.share({"quick": 3000, "thorough": 40000}[ctx.tier])
+    n_cases = ctx.share({"quick": 5000, "thorough": 40000}[ctx.tier])
     hostile_seen = {}
     qcls = {}
     for i in range(n_cases):
@@ -106,7 +106,7 @@ def run_shard(ctx, K=None):
             POOL.append((gd, q))
     # feedback: cases whose trace reached line 7 (rare under uniform sampling) are kept and mutated
     pool = [c for c in POOL]
-    budget = ctx.share({"quick": 4000, "thorough": 60000}[ctx.tier])
+    budget = ctx.share({"quick": 6000, "thorough": 60000}[ctx.tier])
     fb = {"line7_cases": 0, "line7_then_line6": 0}
     for i in range(budget):
         if pool and rng.random() < 0.85:
@@ -136,7 +136,7 @@ def run_shard(ctx, K=None):
     # wide graphs (10..14 nodes): the algorithm works on the whole graph; the exact models keep a handful of live
     # variables (the query's and a few random others) and make the rest constants, so every estimand is still evaluated
     wide = {"cases": 0, "estimands": 0}
-    for _ in range(ctx.share({"quick": 800, "thorough": 16000}[ctx.tier])):
+    for _ in range(ctx.share({"quick": 1600, "thorough": 16000}[ctx.tier])):
         n = rng.randint(10, 14)
         if rng.random() < 0.6:
             # a small graph at the usual densities, embedded in a wide one whose other nodes are constants
